@@ -16,6 +16,12 @@ type Mutex struct {
 // Lock implements sync.Mutex.Lock.
 func (m *Mutex) Lock() {
 	if !active() {
+		if m.locked && !(s != nil && s.aborting) {
+			// Sequential code that locks a mutex it already holds would
+			// deadlock with the real sync.Mutex.
+			panic("verifsched: Lock of a mutex that is already locked by the only running goroutine (self-deadlock)")
+		}
+
 		m.locked = true
 
 		return
